@@ -171,6 +171,30 @@ func (x *Xlat) stdlib(st *State, fr *Frame, out *Outcomes, ce *ast.CallExpr, rec
 		x.set(st, mapLenKey, Sto(hl, r, Sel(hl, m)))
 		x.models["maps.Clone: fresh map with equal content (A5)"] = true
 		return []*Term{Ite(Eq(m, TNull), TNull, r)}
+	case "maps.Copy":
+		dst, src := arg(0), arg(1)
+		mt := types.Unalias(info.TypeOf(ce.Args[0])).Underlying().(*types.Map)
+		ks, vs := x.tm.SortOf(mt.Key()), x.tm.SortOf(mt.Elem())
+		dk, vk := mapDomKey(ks), mapValKey(ks, vs)
+		hd := x.get(st, dk, ArrSort(SRef, ArrSort(ks, SBool)))
+		hv := x.get(st, vk, ArrSort(SRef, ArrSort(ks, vs)))
+		hl := x.get(st, mapLenKey, ArrSort(SRef, SInt))
+		// writing into a nil map panics as soon as src holds an entry
+		x.safety(st, out, "nilmap", Or(Not(Eq(dst, TNull)), Eq(src, TNull), Eq(Sel(hl, src), IntLit(0))), ce.Pos(), "maps.Copy into a nil map")
+		nd := x.ctx.Fresh("mcopyD", ArrSort(ks, SBool))
+		nv := x.ctx.Fresh("mcopyV", ArrSort(ks, vs))
+		nl := x.ctx.Fresh("mcopyL", SInt)
+		k := Const("k!mc", ks)
+		bk := []Bind{{"k!mc", ks}}
+		inSrc := And(Not(Eq(src, TNull)), Sel(Sel(hd, src), k))
+		st.assume(Forall(bk, Eq(Sel(nd, k), Or(Sel(Sel(hd, dst), k), inSrc)), []*Term{Sel(nd, k)}))
+		st.assume(Forall(bk, Eq(Sel(nv, k), Ite(inSrc, Sel(Sel(hv, src), k), Sel(Sel(hv, dst), k))), []*Term{Sel(nv, k)}))
+		st.assume(And(App(">=", SBool, nl, Sel(hl, dst)), Or(Eq(src, TNull), App(">=", SBool, nl, Sel(hl, src)))))
+		x.set(st, dk, Sto(hd, dst, nd))
+		x.set(st, vk, Sto(hv, dst, nv))
+		x.set(st, mapLenKey, Sto(hl, dst, nl))
+		x.models["maps.Copy: dst gets every entry of src, keeps its other entries (A5)"] = true
+		return nil
 	case "time.Now", "math/rand.NewSource", "math/rand.New", "time.Time.UnixNano":
 		var rs []*Term
 		for i := 0; i < sig.Results().Len(); i++ {
